@@ -10,7 +10,7 @@ import (
 
 func main() {
 	if len(os.Args) < 2 {
-		fmt.Fprintln(os.Stderr, "usage: sup <intensity|machine|e2e|startfail> [flags]")
+		fmt.Fprintln(os.Stderr, "usage: sup <intensity|machine|e2e|startfail|tree> [flags]")
 		os.Exit(2)
 	}
 	fs := flag.NewFlagSet(os.Args[1], flag.ExitOnError)
@@ -29,6 +29,8 @@ func main() {
 		runE2E(*n, *out, *replay, *what)
 	case "startfail":
 		runStartFail(*n, *out, *replay)
+	case "tree":
+		runTree(*n, *out, *replay)
 	default:
 		fmt.Fprintln(os.Stderr, "unknown subcommand")
 		os.Exit(2)
